@@ -98,9 +98,17 @@ theorem no_panic_objectTagsLoop (l : List Bytes) : ∀ acc, noPanic (objectTagsL
       obtain ⟨a, b, hab⟩ := len2 (splitOn 61 prt) (by simpa using h)
       rw [hab]
       simp only [idx_zero_cons, idx_one_cons, Except.bind]
-      split
-      · rfl
-      · exact ih _
+      cases queryUnescape a with
+      | none => rfl
+      | some key =>
+        simp only
+        cases queryUnescape b with
+        | none => rfl
+        | some value =>
+          simp only
+          split
+          · rfl
+          · exact ih _
 
 theorem no_panic_parseObjectTags (t : Bytes) : noPanic (parseObjectTags t) = true := by
   unfold parseObjectTags
